@@ -239,6 +239,18 @@ func (c *symCtx) idx(v ssa.Value, d int) string {
 }
 
 func isInduction(v ssa.Value) bool {
+	// rangeindex form: idx = phi(-1, idx) + 1
+	if b, ok := v.(*ssa.BinOp); ok && b.Op == token.ADD {
+		if n, ok := constInt(b.Y); ok && n == 1 {
+			if p, ok := b.X.(*ssa.Phi); ok {
+				for _, e := range p.Edges {
+					if e == v {
+						return true
+					}
+				}
+			}
+		}
+	}
 	p, ok := v.(*ssa.Phi)
 	if !ok {
 		return false
